@@ -1,6 +1,7 @@
 """C11 driver: the real http_client / StreamableHTTPTransport against a scripted endpoint."""
 import json
 import logging
+import random
 
 import anyio
 import httpx
@@ -10,6 +11,32 @@ from harness.drivers import httpx_seam
 from harness.drivers.stdio_drv import idle, drain
 
 logging.disable(logging.CRITICAL)
+
+TEXT = "\u00e9 \U0001F600 \u2028 \u2029 \u0085 end"
+
+
+class ChunkedBody(httpx.AsyncByteStream):
+    """a response body that arrives in pieces (some boundaries inside multi-byte characters)"""
+
+    def __init__(self, content, seed):
+        rng = random.Random(seed)
+        cuts = set()
+        if len(content) > 1:
+            inside = [i for i in range(1, len(content)) if 0x80 <= content[i] <= 0xBF]
+            if inside:
+                cuts.update(rng.sample(inside, min(len(inside), 2)))
+            cuts.update(rng.randrange(1, len(content)) for _ in range(rng.randrange(0, 3)))
+        cuts = sorted(cuts)
+        self.parts = [content[a:b] for a, b in zip([0] + cuts, cuts + [len(content)])]
+
+    async def __aiter__(self):
+        for p in self.parts:
+            yield p
+            await anyio.sleep(0)
+
+    async def aclose(self):
+        pass
+
 
 IDS = {"str": "req-%d", "int": 1000, "int0": 0, "strEmpty": "", "strDigit": "77"}
 
@@ -52,7 +79,7 @@ def sse_encode(msgs, enc):
     return text
 
 
-def build_response(beh, req_id, marker):
+def build_response(beh, req_id, marker, chunk_seed=None):
     """(httpx.Response | exception to raise)"""
     if beh["exc"] == "connect":
         return httpx.ConnectError("All connection attempts failed")
@@ -69,7 +96,7 @@ def build_response(beh, req_id, marker):
         headers["content-type"] = "text/plain"
     if beh["sess"] != "absent":
         headers["mcp-session-id"] = beh["sess"]
-    result = {"marker": marker, "text": "\u00e9 \U0001F600 \u2028 \u2029 \u0085 end", "nil": None}
+    result = {"marker": marker, "text": TEXT, "nil": None}
     resp = {"jsonrpc": "2.0", "id": req_id, "result": result}
     notif = lambda k: {"jsonrpc": "2.0", "method": "notifications/message", "params": {"marker": marker + k, "level": "info", "data": "d"}}
     body = beh["body"]
@@ -111,6 +138,8 @@ def build_response(beh, req_id, marker):
         content = b"Accepted"
     else:
         raise ValueError(body)
+    if chunk_seed is not None and content:
+        return httpx.Response(beh["status"], headers=headers, stream=ChunkedBody(content, chunk_seed))
     return httpx.Response(beh["status"], headers=headers, content=content)
 
 
@@ -142,7 +171,10 @@ def classify(m, req_id, markers):
             mk = p[1]
     if isinstance(d.get("error"), dict) and isinstance(d["error"].get("data"), dict):
         mk = d["error"]["data"].get("marker")
-    return [k, idc, "server" if mk in markers else "synth"]
+    src = "server" if mk in markers else "synth"
+    if src == "server" and isinstance(d.get("result"), dict) and "text" in d["result"] and d["result"]["text"] != TEXT:
+        src = "corrupt"          # the server's message, but not with the server's content
+    return [k, idc, src]
 
 
 def run_sequences(seqs):
@@ -153,13 +185,14 @@ def run_sequences(seqs):
 
     out = []
 
-    async def one(seq):
+    async def one(seq, n=0):
         evs = []
-        state = {"i": 0, "hdr": None, "beh": None, "rid": None}
+        state = {"i": 0, "hdr": None, "beh": None, "rid": None, "n": n}
 
         async def handler(request):
             state["hdr"] = request.headers.get("mcp-session-id", "absent")
-            r = build_response(state["beh"], state["rid"], state["i"] * 10)
+            # every other sequence receives its bodies in pieces
+            r = build_response(state["beh"], state["rid"], state["i"] * 10, chunk_seed=(state["n"] * 31 + state["i"]) if state["n"] % 2 else None)
             if isinstance(r, Exception):
                 raise r
             return r
@@ -192,8 +225,8 @@ def run_sequences(seqs):
         return evs
 
     async def main():
-        for s in seqs:
-            out.append(await one(s))
+        for n, s in enumerate(seqs):
+            out.append(await one(s, n))
 
     vloop.run(main)
     return out
